@@ -235,6 +235,40 @@ def run_shard(shard, tier, seed):
                 rep.case(("discover", i, repr([f for f, _ in grp])), outcome="ok" if ok else "bad")
                 if not ok:
                     rep.violation(f"discover/{grp[0][0]}", f"discover() with {len(grp)} devices answering: {got!r:.200}; expected {want!r:.200}", {"ep": "discover", "factor": grp[0][0], "identity": {}})
+            # unusable datagrams among the answers (an error status, a truncated identity item, garbage) at every position: the good ones all show up
+            class TB(enip.Target):
+                pattern = ()
+                good = []
+
+                def udp(self, data, addr, bound):
+                    fr = W.parse_frame(data)
+                    out, gi = [], 0
+                    for kind_ in self.pattern:
+                        if kind_ == "good":
+                            out.append(W.build_frame(W.CMD_LIST_IDENTITY, 0, W.list_identity_item(self.good[gi]), context=fr.context))
+                            gi += 1
+                        elif kind_ == "status":
+                            out.append(W.build_frame(W.CMD_LIST_IDENTITY, 0, W.list_identity_item(self.good[0]), status=0x65, context=fr.context))
+                        elif kind_ == "header-only":
+                            out.append(W.build_frame(W.CMD_LIST_IDENTITY, 0, b"", status=0x01, context=fr.context))
+                        elif kind_ == "truncated":
+                            full = W.build_frame(W.CMD_LIST_IDENTITY, 0, W.list_identity_item(self.good[0]), context=fr.context)
+                            out.append(full[:40])
+                        else:
+                            out.append(b"\x00\x01\x02")
+                    return out
+            three = [idn for _, idn in cases[:3]]
+            for bad_kind in ("status", "header-only", "truncated", "garbage"):
+                for pattern in (("good", bad_kind, "good"), (bad_kind, "good", "good"), ("good", "good", bad_kind), (bad_kind, bad_kind, "good"), ("good", bad_kind, bad_kind, "good", "good")):
+                    t = TB(enip.IdentityDevice())
+                    t.pattern, t.good = pattern, three
+                    with net.World(t, io_budget=10**7):
+                        got = call(pycomm3.CIPDriver.discover)
+                    want = [expected(idn, "list") for idn in three[: pattern.count("good")]]
+                    ok = got == ("ok", want)
+                    rep.case(("discover-bad", bad_kind, pattern), outcome="ok" if ok else "bad")
+                    if not ok:
+                        rep.violation(f"discover/unusable-datagram/{bad_kind}", f"discover() with answers {pattern!r}: {got!r:.200}; expected the {len(want)} good identities", {"ep": "discover", "factor": "none", "identity": {}})
             # no device answers -> empty list, no exception
             t = T(enip.IdentityDevice())
             with net.World(t, io_budget=10**6):
@@ -293,6 +327,20 @@ def run_shard(shard, tier, seed):
                         idn = dict(base(), status=bytes([s0, s1]))
                         t.identity = idn
                         compare(rep, ep, "keyswitch", idn, call(d.get_plc_info), "plc")
+            if micro:
+                # the real thing: LogixDriver.open() against a device that IS a Micro800 (product name 2080-..., answers Identity only when asked
+                # directly, has no message router to unwrap an Unconnected Send); the identity gathered while opening must be the device's
+                for pname in (b"2080-LC50-48QWB", b"2080-LC30-10QVB"):
+                    idn = dict(base(), product_name=pname, product_code=137, serial=0x00C0FFEE)
+                    dev = enip.IdentityDevice(lambda req, info: (0x08, [], b"") if info.get("transport") == "ucsend" else None)
+                    t2 = make_target(dev)
+                    t2.identity = idn
+                    with net.World(t2, io_budget=10**6):
+                        d2 = pycomm3.LogixDriver("10.0.0.1", init_tags=False)
+                        o = call(d2.open)
+                        got = ("ok", {k: v for k, v in d2.info.items() if k in expected(idn, "plc")}) if o == ("ok", True) else o
+                        compare(rep, "open/micro800", "product_name", idn, got, "plc")
+                        call(d2.close)
         rep.sample({"entry": ep, "cases": len(cases)})
     elif kind == "pairwise":
         t = make_target()
